@@ -383,8 +383,8 @@ STAGES = [
           enumerate=enumerate_switch_seconds, exhaustive=True, tiers=("thorough",)),
     Stage(name="instants", kind="hyp", check=check_instant, classify=classify_instant, strategy=strategy_instants,
           budget={"quick": 600, "thorough": 20000},
-          floors={"fulfilled-932": 0.08, "fulfilled-934": 0.08, "near-dst-switch": 0.2, "offset-zero": 0.05},
+          floors={"fulfilled-932": 0.08, "fulfilled-934": 0.08, "near-dst-switch": 0.15, "offset-zero": 0.05},
           sample=lambda c: {"instant": c["ts"], "offset_s": c["offset_s"], "written": ref.format_instant(c["ts"], c["offset_s"], c["style"])}),
     Stage(name="strings", kind="hyp", check=check_string, classify=classify_string, strategy=strategy_strings,
-          budget={"quick": 400, "thorough": 10000}, floors={"definitely-other": 0.4, "range-edge": 0.1, "long-input": 0.03}),
+          budget={"quick": 400, "thorough": 10000}, floors={"definitely-other": 0.4, "range-edge": 0.07, "long-input": 0.03}),
 ]  # fmt: skip
